@@ -307,6 +307,68 @@ func execC10Bubble(r *kernel.Run, s C10Spec) {
 		}
 		receive("cbor:"+m.ID, "tamper-field:cbor", fromCBOR(b))
 	}
+	// --- frame shifts: the event hash covers index || parent hash || E without length framing, so a byte
+	// can be moved between the first event's parent hash and its E (CBOR carries both as raw byte strings,
+	// and in memory nothing is decoded at all); likewise E and -E have the same bytes
+	if mirror.E != nil && len(mirror.E.E) > 0 && len(mirror.E.E[0]) > 1 && len(mirror.E.ParentHash) > 1 {
+		shift := func(dir int) wireUpdate {
+			mm := mirror
+			el := *mirror.E
+			el.E = append([][]byte{}, mirror.E.E...)
+			ph, e0 := mirror.E.ParentHash, mirror.E.E[0]
+			if dir > 0 { // first byte of E appended to the parent hash
+				el.ParentHash = append(append([]byte{}, ph...), e0[0])
+				el.E[0] = append([]byte{}, e0[1:]...)
+			} else { // last byte of the parent hash prepended to E
+				el.ParentHash = append([]byte{}, ph[:len(ph)-1]...)
+				el.E[0] = append([]byte{ph[len(ph)-1]}, e0...)
+			}
+			mm.E = &el
+			return mm
+		}
+		for _, dir := range []int{1, -1} {
+			mm := shift(dir)
+			if b, err := cbor.Marshal(mm, cbor.EncOptions{}); err == nil {
+				receive(fmt.Sprintf("cbor:frame-shift:%+d", dir), "tamper-field:frame-shift", fromCBOR(b))
+			}
+			receive(fmt.Sprintf("memory:frame-shift:%+d", dir), "tamper-field:frame-shift", func() (*revocation.Update, error) {
+				u := &revocation.Update{}
+				if err := json.Unmarshal(honestJSON, u); err != nil {
+					return nil, err
+				}
+				out := &revocation.Update{SignedAccumulator: u.SignedAccumulator}
+				for k, ev := range u.Events {
+					ne := &revocation.Event{Index: ev.Index, E: ev.E, ParentHash: ev.ParentHash}
+					if k == 0 {
+						ne.ParentHash = revocation.Hash(mm.E.ParentHash)
+						ne.E = new(big.Int).SetBytes(mm.E.E[0])
+					}
+					out.Events = append(out.Events, ne)
+				}
+				return out, nil
+			})
+		}
+	}
+	if len(honest.Events) > 0 {
+		for _, k := range []int{0, len(honest.Events) - 1} {
+			kk := k
+			receive(fmt.Sprintf("memory:negated-E:%d", kk), "tamper-field:frame-shift", func() (*revocation.Update, error) {
+				u := &revocation.Update{}
+				if err := json.Unmarshal(honestJSON, u); err != nil {
+					return nil, err
+				}
+				out := &revocation.Update{SignedAccumulator: u.SignedAccumulator}
+				for j, ev := range u.Events {
+					ne := &revocation.Event{Index: ev.Index, E: ev.E, ParentHash: ev.ParentHash}
+					if j == kk {
+						ne.E = new(big.Int).Neg(ev.E)
+					}
+					out.Events = append(out.Events, ne)
+				}
+				return out, nil
+			})
+		}
+	}
 	// --- chain-level substitutions (all through JSON so nothing is pre-verified)
 	sub := func(id string, sacc *revocation.SignedAccumulator, evs []*revocation.Event) {
 		u := &revocation.Update{SignedAccumulator: &revocation.SignedAccumulator{Data: sacc.Data, PKCounter: sacc.PKCounter}, Events: evs}
